@@ -37,7 +37,7 @@ func obsTags(o TextObs) []string {
 	if o.Panicked {
 		switch {
 		case strings.Contains(o.Err, "too many") || strings.Contains(o.Err, "too long") || strings.Contains(o.Err, "is invalid") || strings.Contains(o.Err, "invalid type name"):
-			tags = append(tags, "C16-F1:builder-precondition-panic")
+			tags = append(tags, "C16-F1:builder-precondition-panic") // fixed 2c1d463a7: a regression
 		default:
 			tags = append(tags, "panic:other")
 		}
@@ -49,12 +49,37 @@ func obsTags(o TextObs) []string {
 		tags = append(tags, "build-failed-after-nil-error")
 	}
 	if !o.Positioned {
-		tags = append(tags, "error-without-position")
+		if builderRefusal(o) {
+			tags = append(tags, "C16-F1b:builder-refusal-without-position")
+		} else {
+			tags = append(tags, "error-without-position")
+		}
 	}
 	if !o.Deterministic {
-		tags = append(tags, "nondeterministic")
+		if o.RuleOrder {
+			tags = append(tags, "C16-F2:acl-rule-order-nondeterministic") // fixed 87b96bf82: a regression
+		} else {
+			tags = append(tags, "nondeterministic")
+		}
 	}
 	return tags
+}
+
+// the five shapes of C16-F1b: the builder refused the definition (limit of uniques / unique fields /
+// fields, or a generated descriptor / unique name that is too long), buildAppDefs reports it as one
+// error without file position although the offending statement has one
+var refusalShapes = []string{"too many: uniques", "too many: fields in unique", "too many: fields, maximum", "invalid type name", "unique name"}
+
+func builderRefusal(o TextObs) bool {
+	if o.Stage != "build" || len(o.Unpositioned) != 1 || !strings.HasPrefix(o.Unpositioned[0], "invalid application definition: ") {
+		return false
+	}
+	for _, s := range refusalShapes {
+		if strings.Contains(o.Unpositioned[0], s) {
+			return true
+		}
+	}
+	return false
 }
 
 func withSys(texts []c17.PkgText) []c17.PkgText {
@@ -158,7 +183,7 @@ func Replay(path string, out *kit.Out) error {
 // ---- boundary cases of stream (a): the limits the builder enforces and the parser does not ----
 
 var boundaries = []string{"uniques-100", "uniques-101", "unique-fields-256", "unique-fields-257", "ws-name-245", "ws-name-246",
-	"table-name-243-unique", "table-name-244-unique", "table-name-255"}
+	"table-name-244-unique", "table-name-245-unique", "table-name-255"}
 
 func boundary(a c17.Schema, b string) {
 	ws := &a[0].Files[0][0]
@@ -201,10 +226,10 @@ func boundary(a c17.Schema, b string) {
 			k = 246
 		}
 		a[0].Files[0] = append(a[0].Files[0], c17.Ws{Name: n(k), Items: []c17.WsItem{}})
-	case "table-name-243-unique":
-		tab(n(243), 1, each(1))
 	case "table-name-244-unique":
 		tab(n(244), 1, each(1))
+	case "table-name-245-unique":
+		tab(n(245), 1, each(1))
 	case "table-name-255":
 		tab(n(255), 1, nil)
 	}
@@ -242,6 +267,7 @@ func Generate(seed uint64, n int, tier, corpusDir string, shard int, out *kit.Ou
 		progs[name] = p
 	}
 	var lastDump []c17.DItem // an accepted definition to take apart through the builder API
+	malformed, builderCases := shard*7, shard*11
 	for i := 0; i < n; i++ {
 		cr := r.Fork()
 		switch i % 10 {
@@ -250,11 +276,16 @@ func Generate(seed uint64, n int, tier, corpusDir string, shard int, out *kit.Ou
 			if res := runModel(a, "model:valid", out); res.Stage == "ok" && len(res.Dump.Items) < 60 {
 				lastDump = res.Dump.Items
 			}
-		case 1: // one language rule broken
+		case 1, 7: // one language rule broken; the kinds are cycled through so that a quick run covers all
 			a := c17.GenSchema(cr, false)
 			kind := "model:valid"
-			if m, ok := c17.Mutate(cr, a); ok {
-				kind = "model:malformed:" + m
+			muts := c17.Mutations()
+			malformed++
+			for k := 0; k < len(muts); k++ {
+				if m := muts[(malformed+k)%len(muts)]; c17.MutateKind(cr, a, m) {
+					kind = "model:malformed:" + m
+					break
+				}
 			}
 			runModel(a, kind, out)
 		case 2: // a builder limit approached / crossed
@@ -276,7 +307,8 @@ func Generate(seed uint64, n int, tier, corpusDir string, shard int, out *kit.Ou
 				runBuilder(lastDump, "builder:none", out)
 				continue
 			}
-			start := cr.Intn(len(itemMutations))
+			builderCases++
+			start := builderCases
 			for k := 0; k < len(itemMutations); k++ {
 				m := itemMutations[(start+k)%len(itemMutations)]
 				if items, ok := MutateItems(cr, lastDump, m); ok {
@@ -284,7 +316,7 @@ func Generate(seed uint64, n int, tier, corpusDir string, shard int, out *kit.Ou
 					break
 				}
 			}
-		case 4, 6, 7: // token-level mutation of a shipped program
+		case 4, 6: // token-level mutation of a shipped program
 			name := progNames[cr.Intn(len(progNames))]
 			texts, kinds := mutateText(cr, progs[name], donors)
 			runText(texts, "text:"+name+":"+kinds, out, true)
